@@ -13,7 +13,9 @@ the wrong unit ("wrong_unit"), a variable that reads itself at the same period
 ["switch", k, false], or ["replace", v, formulas, "replace"|"update"] = a corrected class for the
 variable given to TaxBenefitSystem.replace_variable / update_variable under the live
 simulation (model side: a new segment of Corr_C18.CSeq with the new rule system and the
-state carried over), or the pseudo request ["fix"] = set_input on the injected variable
+state carried over), or - when the failure is a dependency on an unknown variable -
+["addvar", var] = TaxBenefitSystem.add_variable of that variable under the live simulation
+(model side: the next segment's rule system contains it), or the pseudo request ["fix"] = set_input on the injected variable
 at the period at which it was being computed when the last failure fired (resolved at run
 time from the recorded stack; the resolved request is what the Coq model is given).
 
@@ -53,7 +55,7 @@ RULE = ("ranked rule systems (5-9 variables over the expression language of coq/
         "an inner position of the formula (so that none, all or some of the other dependencies have completed when it "
         "fires); request sequences: inputs, failing and succeeding requests mixed, cause removed (switch off / "
         "set_input on the failing node / the variable's class corrected on the live tax-benefit system with "
-        "replace_variable or update_variable), same request repeated, further requests; max_spiral_loops 1-3; "
+        "replace_variable or update_variable / the unknown variable added with add_variable), same request repeated, further requests; max_spiral_loops 1-3; "
         "FullTracer on or off; plus a stream of circular definitions passing through 1-2 other periods of the same "
         "variable before closing under max_spiral_loops 1-3 (missing input then supplied), and a stream "
         "of self-dependent (spiralling) systems with raising formulas and malformed requests for which only the "
@@ -122,6 +124,30 @@ def leaves(e, ctx, path, acc):
     return acc
 
 
+def dep_contexts(e, ctx, idx, acc):
+    """entity contexts in which variable idx is requested inside e"""
+    tag = e[0]
+    if tag == "dep":
+        if e[1] == idx:
+            acc.add(ctx)
+    elif tag == "bin":
+        dep_contexts(e[2], ctx, idx, acc), dep_contexts(e[3], ctx, idx, acc)
+    elif tag == "not":
+        dep_contexts(e[1], ctx, idx, acc)
+    elif tag == "where":
+        for k in (1, 2, 3):
+            dep_contexts(e[k], ctx, idx, acc)
+    elif tag == "agg":
+        dep_contexts(e[3], "person", idx, acc)
+    elif tag == "project":
+        dep_contexts(e[2], "group", idx, acc)
+    elif tag not in EXPR_TAGS:          # newer constructors of rules.py: walk every sub-expression, same context
+        for x in e[1:]:
+            if isinstance(x, list) and x and isinstance(x[0], str):
+                dep_contexts(x, ctx, idx, acc)
+    return acc
+
+
 def replace_at(e, path, f):
     if not path:
         return f(e)
@@ -130,7 +156,7 @@ def replace_at(e, path, f):
     return e
 
 
-def injection(rng, sys, f, kind, ctx, nv):
+def injection(rng, sys, f, kind, ctx, nv, ghost=None):
     """the failing sub-expression for variable f evaluated in entity context ctx"""
     vs = sys["vars"]
     if kind in ("raise", "raise2"):
@@ -140,7 +166,8 @@ def injection(rng, sys, f, kind, ctx, nv):
         j = rng.choice(same_ent) if same_ent else rng.randrange(max(f, 1))
         return ["dep", j, "bad", "plain"]
     if kind == "unknown_var":
-        return ["dep", nv + 5, rng.choice(["same", "same", ["offset", -1]]), rng.choice(["plain", "plain", "add"])]
+        return ["dep", nv + 5 if ghost is None else ghost, rng.choice(["same", "same", ["offset", -1]]),
+                rng.choice(["plain", "plain", "add"])]
     if kind == "wrong_unit":
         u = vs[f]["unit"]
         other = [j for j in same_ent if vs[j]["unit"] not in (u, "eternity")]
@@ -164,19 +191,20 @@ def inject(rng, sys, f, kind, where, switch=0):
     nv = len(sys["vars"])
     v = sys["vars"][f]
     which = None if rng.random() < 0.8 else rng.randrange(len(v["formulas"]))
+    ghost = nv if rng.random() < 0.7 else nv + 5      # nv: the next free index, so that the variable can be added
     for n, se in enumerate(v["formulas"]):
         if which is not None and n != which:
             continue
         old = se[1]
         if where == "first":
-            inj = injection(rng, sys, f, kind, v["ent"], nv)
+            inj = injection(rng, sys, f, kind, v["ent"], nv, ghost)
             new = ["bin", "add", inj, old]
         elif where == "last":
-            inj = injection(rng, sys, f, kind, v["ent"], nv)
+            inj = injection(rng, sys, f, kind, v["ent"], nv, ghost)
             new = ["bin", "add", old, inj]
         else:
             path, ctx = rng.choice(leaves(old, v["ent"], [], []))
-            inj = injection(rng, sys, f, kind, ctx, nv)
+            inj = injection(rng, sys, f, kind, ctx, nv, ghost)
             if rng.random() < 0.5:
                 new = replace_at(old, path, lambda leaf: ["bin", "add", leaf, inj])
             else:
@@ -285,7 +313,29 @@ def gen_injected(rng, counter):
         else:
             first = others(rng.randint(1, 3)) + [target]
             rng.shuffle(first)
-            if rng.random() < 0.5:
+            ctxs = set()
+            for _, e in sys["vars"][f]["formulas"]:
+                dep_contexts(e, sys["vars"][f]["ent"], nv0, ctxs)
+            if kind == "unknown_var" and len(ctxs) == 1 and rng.random() < 0.6:
+                # fourth way: the unknown variable is added to the live tax-benefit system
+                ent = ctxs.pop()
+                u = sys["vars"][f]["unit"]
+                inputs_ = [j for j in range(nv0) if not sys0["vars"][j]["formulas"] and sys0["vars"][j]["ent"] == ent
+                           and sys0["vars"][j]["unit"] in (u, "eternity")]
+                formulas = []
+                if inputs_ and rng.random() < 0.4:
+                    formulas = [[[1, 1, 1], ["bin", "add", ["dep", rng.choice(inputs_), "same", "plain"],
+                                             ["const", rng.randint(1, 5)]]]]
+                newvar = {"ent": ent, "type": rng.choice(["int", "int", "float"]), "unit": u, "end": None,
+                          "formulas": formulas, "default": rng.choice([0, 1, 3]), "neutral": False}
+                cnt = rules.count_for(pop, newvar)
+                tp = rules.gen_period(rng, u, year=year)
+                use = lambda: rng.choice([["set", nv0, tp if rng.random() < 0.5 else rules.gen_period(rng, u, year=year),  # noqa: E731
+                                           [rng.randint(-9, 30) for _ in range(cnt)]],
+                                          ["calc", nv0, tp], ["add", nv0, tp]])
+                reqs += first + ([use()] if rng.random() < 0.3 else []) + [["addvar", newvar]]
+                reqs += [use() for _ in range(rng.randint(0, 2))] + [target] + [use() for _ in range(rng.randint(0, 1))]
+            elif rng.random() < 0.5:
                 reqs += first + [["fix"], target]
                 if rng.random() < 0.5:
                     reqs += [["fix"], target]
@@ -453,6 +503,8 @@ class Runner:
         self.fired = None         # calls in progress when an exception first passed, + its kind
         self.reentered = None     # a (variable, period) requested while it was being computed
         self.tainted = []         # (variable, period) marked for purge during the last top-level calculation
+        self.added = []           # variables added to the live system: self.sys keeps its length (the formulas
+                                  # already compiled keep asking for the name they asked for before)
         if probe:
             self._wrap()
 
@@ -503,6 +555,25 @@ class Runner:
         else:
             self.tbs.replace_variable(cls)
 
+    def cur_sys(self):
+        """the rule system as it is now (what a new simulation would be built from, what the model is given)"""
+        return dict(self.sys, vars=self.sys["vars"] + self.added)
+
+    def add_variable(self, v):
+        """TaxBenefitSystem.add_variable under the live simulation; the class is named as the formulas name it"""
+        idx = len(self.sys["vars"]) + len(self.added)
+        if idx != len(self.sys["vars"]):
+            raise AssertionError("one added variable per case")
+        name = rules.var_name(self.sys, idx)
+        ents = {e.key: e for e in self.tbs.entities}
+        attrs = {"value_type": rules.TYPES[v["type"]], "entity": ents[rules.ENT_KEY[v["ent"]]],
+                 "definition_period": rules.UNIT_OBJ[v["unit"]],
+                 "default_value": rules.TYPES[v["type"]](v["default"])}
+        for start, e in v["formulas"]:
+            attrs[rules.formula_name(start)] = rules.make_formula(self.sys, self.switches, e, v["ent"])
+        self.tbs.add_variable(type(name, (Variable,), attrs))
+        self.added.append(copy.deepcopy(v))
+
     def do(self, r):
         self.fired = None
         self.reentered = None
@@ -511,6 +582,9 @@ class Runner:
             if r[0] == "replace":
                 self.replace(r[1], r[2], r[3])
                 return None
+            if r[0] == "addvar":
+                self.add_variable(r[1])
+                return None
             return rules.do_request(self.sim, self.sys, self.switches, r)
         except rules.Inexact:
             raise
@@ -518,7 +592,16 @@ class Runner:
             return Err(errkind(e), f"{type(e).__name__}: {e}"[:200])
 
     def cache(self):
-        return rules.cache_obs(self.sim, self.sys)
+        entries = rules.cache_obs(self.sim, self.sys)
+        for k in range(len(self.added)):
+            idx = len(self.sys["vars"]) + k
+            # read-only observation: the holder if one was created, without going through the engine's lookups
+            population = self.sim.populations[rules.ENT_KEY[self.added[k]["ent"]]]
+            holder = population._holders.get(rules.var_name(self.sys, idx))
+            for p in (holder.get_known_periods() if holder is not None else []):
+                entries.append([[idx] + rules.period_key(rules.period_json(p)), rules.ints(holder._memory_storage.get(p))])
+        entries.sort(key=lambda e: e[0])
+        return entries
 
     def close(self):
         d = getattr(self.sim, "_data_storage_dir", None)
@@ -528,9 +611,14 @@ class Runner:
 
 def frame_key(sys, name, period):
     """cache key of a call in progress, None when it cannot name a cache entry"""
-    if not (isinstance(name, str) and name.startswith("v") and name[1:].isdigit()):
+    if not isinstance(name, str):
         return None
-    i = int(name[1:])
+    if name.startswith("v") and name[1:].isdigit():
+        i = int(name[1:])
+    elif name.startswith("ghost") and name[5:].isdigit():
+        i = int(name[5:])           # a variable added later keeps the name under which it was unknown
+    else:
+        return None
     if i >= len(sys["vars"]) or not hasattr(period, "unit"):
         return None
     pj = rules.ETERNITY if sys["vars"][i]["unit"] == "eternity" else rules.period_json(period)
@@ -569,6 +657,9 @@ def run_impl(case):
             out = _run(case)
         except rules.Inexact:
             out = "skip"
+        except BaseException:
+            _RESOLVED[key] = "skip"      # the driver itself failed: reported by the oracle, no model case
+            raise
     _RESOLVED[key] = "skip" if out == "skip" else out["requests"]
     return out
 
@@ -603,14 +694,14 @@ def _run(case):
             steps.append([a, len(tracer.stack), after])
             tainted = []
             for n, p in main.tainted:
-                tk = frame_key(sys, n, p)
+                tk = frame_key(main.cur_sys(), n, p)
                 if tk is not None and tk not in tainted:
                     tainted.append(tk)
             state.append([cursor_ok, len(main.sim.invalidated_caches), len(main.inprogress), main.reentered, tainted])
             if main.fired is not None:
                 frames, kind = main.fired
                 fired.append({"kind": kind, "frames": [frame_json(n, p) for n, p in frames],
-                              "keys": [frame_key(sys, n, p) for n, p in frames]})
+                              "keys": [frame_key(main.cur_sys(), n, p) for n, p in frames]})
                 last_fired = frames
             else:
                 fired.append(None)
@@ -619,7 +710,7 @@ def _run(case):
             fr, en = None, []
             if full and is_calc(r):
                 inputs = [q for q in resolved if q[0] == "set"]
-                f1 = Runner(_fresh_case(case, [], switches_before, main.sys), trace=False)
+                f1 = Runner(_fresh_case(case, [], switches_before, main.cur_sys()), trace=False)
                 for q in inputs:
                     f1.do(q)
                 fr = f1.do(r)
@@ -627,7 +718,7 @@ def _run(case):
                 old = {json.dumps(e[0]) for e in before}
                 new = [e for e in after if json.dumps(e[0]) not in old]
                 if new:
-                    f2 = Runner(_fresh_case(case, [], [], main.sys), trace=False)
+                    f2 = Runner(_fresh_case(case, [], [], main.cur_sys()), trace=False)
                     for q in inputs:
                         f2.do(q)
                     for k, val in new:
@@ -667,10 +758,13 @@ def coq_case(case):
     switches = list(cur.get("switches", []))
     segs, reqs = [], []
     for r in res:
-        if r[0] == "replace":
+        if r[0] in ("replace", "addvar"):
             segs.append((cur, reqs))
             cur = copy.deepcopy(cur)
-            cur["vars"][r[1]]["formulas"] = copy.deepcopy(r[2])
+            if r[0] == "replace":
+                cur["vars"][r[1]]["formulas"] = copy.deepcopy(r[2])
+            else:
+                cur["vars"].append(copy.deepcopy(r[1]))
             cur["switches"] = sorted(set(switches))
             reqs = []
             continue
@@ -783,6 +877,8 @@ def classify(case, obs):
     tag += f":depth{min(depth, 3)}{'+' if depth > 3 else ''}"
     if any(r[0] == "replace" for r in obs["requests"]):
         tag += ":class-replaced"
+    if any(r[0] == "addvar" for r in obs["requests"]):
+        tag += ":variable-added"
     if case.get("mode") == "full":
         tag += ":recovered" if recovered(case, obs) else ":not-recovered"
     return tag
